@@ -64,9 +64,9 @@ HeaderLegal(hd) ==
   /\ (hd.fh # 16 => HasFlag(hd.flags, FlagFont))
 
 PaletteLen(flags) == IF HasFlag(flags, FlagPalette) THEN 48 ELSE 0
-FontLen(flags, fh) == IF HasFlag(flags, FlagFont) THEN (IF HasFlag(flags, Flag512) THEN 512 ELSE 256) * fh ELSE 0
+XbFontLen(flags, fh) == IF HasFlag(flags, FlagFont) THEN (IF HasFlag(flags, Flag512) THEN 512 ELSE 256) * fh ELSE 0
 \* number of bytes between the header and the image data
-MidLen(hd) == PaletteLen(hd.flags) + FontLen(hd.flags, hd.fh)
+MidLen(hd) == PaletteLen(hd.flags) + XbFontLen(hd.flags, hd.fh)
 ImageOffset(hd) == HeaderLen + MidLen(hd) + 1        \* 1-based offset of the first image byte
 
 \* ------------------------------------------------------------------ meaning of the attribute byte
